@@ -22,7 +22,7 @@ import (
 	"verif/harness/xt"
 )
 
-const c01Rule = "rapid-generated histories (6..40 operations) over one provider: sso (valid AuthnRequest accepted through the real SSO endpoint), seed (stored request inserted directly: pending or done, with or without a user attached, bindings POST / Redirect / Artifact / empty, any consumer URL incl. empty, ids that are case / blank / percent-encoding twins of each other), complete (login completion for an existing or unknown user), fault (user-info, signing-key - error / nil / no key / no certificate / empty certificate -, or application lookup failure on the next callback) and callback with id expressions {exact, unknown, empty, upper-case twin, blank-padded, percent-encoded twin, '+' / blank / separator twins, prefix, id of another session} placed in the query, the form body, both, or repeated. Invariant after every callback: a Success Response implies that one of the supplied id values names a stored request that is done, and the NameID / attributes are those of that request's user; any other reply has a non-Success status (or is a plain HTTP error) and its decoded layers contain no user marker, no non-empty NameID, no AttributeValue and no SignatureValue; user info is fetched only for a named, done request. Non-trivial: a callback issued while at least one pending and one done request exist. Distinct by (state of the named ids, id expression, placement, binding, fault)."
+const c01Rule = "rapid-generated histories (6..40 operations) over one provider: sso (valid AuthnRequest accepted through the real SSO endpoint), seed (stored request inserted directly: pending or done, with or without a user attached, bindings POST / Redirect / Artifact / empty, any consumer URL incl. empty, ids that are case / blank / percent-encoding twins of each other), complete (login completion for an existing or unknown user), fault (user-info, signing-key - error / nil / no key / no certificate / empty certificate -, or application lookup failure on the next callback) and callback with id expressions {exact, unknown, empty, upper-case twin, blank-padded, percent-encoded twin, '+' / blank / separator twins, prefix, id of another session} placed in the query, the form body, both, or repeated - or handed to the exported Provider.AuthCallbackResponse the way an application with its own login UI does. Invariant after every callback: a Success Response implies that one of the supplied id values names a stored request that is done, and the NameID / attributes are those of that request's user; any other reply has a non-Success status (or is a plain HTTP error) and its decoded layers contain no user marker, no non-empty NameID, no AttributeValue and no SignatureValue; user info is fetched only for a named, done request. Non-trivial: a callback issued while at least one pending and one done request exist. Distinct by (state of the named ids, id expression, placement, binding, fault)."
 
 type C01Op struct {
 	Kind      string             `json:"kind"` // sso | seed | complete | fault | callback
@@ -47,7 +47,7 @@ type C01Case struct {
 var c01SeedIDs = []string{"seed-a", "Seed-A", "SEED-A", "seed-a ", " seed-a", "seed%2Da", "seed-b", "seed-b2", "s", "seed/../x", "seed&id=seed-b", "séed", "seed+c", "seed+c", "seed+c", "seed c", "seed%20c", "seed+c+d", "seed_c", "seed.c"}
 
 var c01IDExprs = []string{"exact", "exact", "exact", "unknown", "empty", "upper", "lower", "blank-suffix", "blank-prefix", "percent-twin", "prefix", "suffix-junk", "plus-as-blank", "plus-as-blank", "blank-as-plus", "sep-twin"}
-var c01Placements = []string{"query", "query", "form", "both-same", "query-ref+form-other", "query-other+form-ref", "repeat-ref-other", "repeat-other-ref"}
+var c01Placements = []string{"query", "query", "form", "both-same", "query-ref+form-other", "query-other+form-ref", "repeat-ref-other", "repeat-other-ref", "api", "api"}
 
 func genC01Case(t *rapid.T) C01Case {
 	spec := stdSpec()
@@ -236,6 +236,9 @@ func c01Execute(c C01Case, st *c01Stats) []*ev.Violation {
 			case "repeat-other-ref":
 				hr.RawQuery = "id=" + qesc(other) + "&id=" + qesc(v1)
 				supplied = []string{v1, other}
+			case "api":
+				// not through the endpoint: the exported Provider.AuthCallbackResponse, as an application with its own login UI uses it
+				supplied = []string{v1}
 			}
 			if pendingFault != nil {
 				w.Store.SetFaults([]world.Fault{*pendingFault})
@@ -271,7 +274,12 @@ func c01Execute(c C01Case, st *c01Stats) []*ev.Violation {
 					}
 				}
 			}
-			rep := obs.Do(w.Handler, hr)
+			var rep obs.Reply
+			if op.Placement == "api" {
+				rep = apiCallback(w, defHost, v1)
+			} else {
+				rep = obs.Do(w.Handler, hr)
+			}
 			calls := w.Store.Calls()
 			faultName := "none"
 			if pendingFault != nil {
